@@ -155,6 +155,52 @@ def scen_keys(ch, params, out):
         em.close()
 
 
+def scen_key_in_child(ch, params, out):
+    """one key from the wide pool (odd characters, reserved-name variants) as a field of a CHILD model, under both layouts: the
+    text of a nested class is post-processed (indented) after the field line with its alias / metadata was written"""
+    from vflib import emitcheck, pipeline
+    pool = list(dict.fromkeys(emitcheck.KEY_POOL_ODD + SPECIAL_KEYS + emitcheck.KEY_POOL_RESERVED + emitcheck.KEY_POOL_PREFIXED))
+    key = ch.choose("key", pool, shard=True)
+    fw = ch.choose("framework", params.get("frameworks", ["pydantic", "sqlmodel", "attrs", "dataclasses"]))
+    layout = ch.choose("layout", ["flat", "nested"])
+    cu = ch.flag("convert_unicode")
+    depth = ch.choose("depth", [1, 2])
+    kwargs = {"convert_unicode": cu}
+    if fw in ("attrs", "dataclasses"):
+        kwargs["meta"] = True
+    if not emitcheck.fold(key, cu):
+        out.checked += 1
+        return
+    child = {key: 1, "plain": "s"}
+    data = [{"child": child, "id": 1}] if depth == 1 else [{"mid": {"child": child, "m": 2}, "id": 1}]
+    out.info = {"key": key, "framework": fw, "layout": layout, "convert_unicode": cu, "depth": depth}
+    ctx = lambda: f"key {key!r} in a child at depth {depth} {fw}/{layout} convert_unicode={cu}"
+    try:
+        gen, reg, _ = pipeline.infer({"Root": data})
+        text = pipeline.emit(reg, fw, layout, **kwargs)
+    except Exception as e:
+        out.fail("pipeline_raises", f"{type(e).__name__}: {e} ({ctx()})", f"pipeline_raises:{type(e).__name__}")
+        return
+    em = emitcheck.check_loadable(text, reg, fw, layout, out, ctx)
+    if em is None:
+        return
+    try:
+        cls = next((c for q, c in em.ld.classes.items() if q.split(".")[-1] == "Child"), None)
+        if not out.check(cls is not None, "child_missing", lambda: f"({ctx()})\n{text}", "child_missing"):
+            return
+        table = em.table(cls)
+        out.check(len(table) == 2, "distinct_keys_collapse", lambda: f"2 keys but fields {list(table)} ({ctx()})\n{text}", "distinct_keys_collapse")
+        holders = [f for f, rec in table.items() if rec["key"] == key]
+        if key in table and not holders:
+            out.check(table[key]["key"] is None, "spurious_original_key", lambda: f"{key}: {table[key]['key']!r} ({ctx()})", "spurious_original_key")
+        else:
+            out.check(len(holders) == 1, "original_key_not_recoverable",
+                      lambda: f"key {key!r}: no field named so and carried keys are {[r['key'] for r in table.values()]} ({ctx()})\n{text}",
+                      f"original_key_not_recoverable:{fw}")
+    finally:
+        em.close()
+
+
 ALPHABET = ["a", "B", "z", "_", "-", "1", "\u00e9", " ", ".", '"']
 
 
@@ -205,10 +251,12 @@ def parts(tier):
     if tier == "quick":
         return [SMT("quoting", "vflib.props.c11:kernel_quoting", {}, timeout=200, mode="SMT-S"),
                 CH("keys", "vflib.props.c11:scen_keys", {}, shards=16, timeout=170, path_timeout=30),
+                CH("key_in_child_model", "vflib.props.c11:scen_key_in_child", {}, shards=16, timeout=170, path_timeout=30),
                 CH("class_names_vs_root_names", "vflib.props.c03:scen_roots", {"frameworks": ["pydantic", "dataclasses"]}, shards=10, timeout=170, path_timeout=30),
                 CH("labels_alphabet", "vflib.props.c11:scen_labels", {"maxlen": 3}, shards=16, timeout=170, path_timeout=30)]
     return [SMT("quoting", "vflib.props.c11:kernel_quoting", {}, timeout=200, mode="SMT-S"),
             CH("keys", "vflib.props.c11:scen_keys", {"pool": "full"}, shards=16, timeout=250, path_timeout=30),
+            CH("key_in_child_model", "vflib.props.c11:scen_key_in_child", {}, shards=16, timeout=250, path_timeout=30),
             CH("class_names_vs_root_names", "vflib.props.c03:scen_roots", {}, shards=10, timeout=250, path_timeout=30),
             CH("labels_alphabet", "vflib.props.c11:scen_labels", {"maxlen": 4}, shards=16, timeout=250, path_timeout=60)]
 
